@@ -401,7 +401,8 @@ def run_history(h, ops, on_rec, on_reset=None, both_sides=True, do_gen=True):
         if k == "g":
             if not h.saved:
                 continue
-            state, mst = h.saved[op[1] % len(h.saved)]
+            # half of the time the INITIAL state (saved[0]): whatever the object did since must not matter
+            state, mst = h.saved[0 if op[1] % 2 == 0 else (op[1] // 2) % len(h.saved)]
             # progress / near-miss / any flat action in that EARLIER state: the result must depend
             # on (state, action) only, whatever the environment object did in between
             sub = op[2] % 3
